@@ -48,6 +48,13 @@ def _ops():
                                         "extra": {"optimization_options": {"optimize_with_safety_as_subpath_constraints": True, "optimize_with_greedy": False}}}
     for cls in ["kMinPathError", "kLeastAbsErrors"]:
         ops[f"{cls}:scaling"] = {"cls": cls, "k": 3, "use": ["optimization_options", "solver_options", "error_scaling", "additional_starts", "additional_ends"]}
+    # lengths: the shared graph has a 'length' on its nodes and on NO arc (arcs without the attribute count 1 in edge mode)
+    for cls in ["kFlowDecomp", "kMinPathError", "MinFlowDecomp"]:
+        kk = {} if cls.startswith("Min") else {"k": 3}
+        ops[f"{cls}:node_len"] = dict({"cls": cls, "use": ["solver_options"], "extra": {"flow_attr_origin": "node", "length_attr": "length",
+                                                                                     "optimization_options": {"optimize_with_greedy": False}}, "node": True}, **kk)
+        ops[f"{cls}:edge_len"] = dict({"cls": cls, "use": ["solver_options", "subpath_constraints"],
+                                       "extra": {"length_attr": "length", "subpath_constraints_coverage_length": 0.6, "optimization_options": {"optimize_with_greedy": False}}}, **kk)
     for cls in ["kFlowDecompCycles", "kMinPathErrorCycles", "kLeastAbsErrorsCycles"]:
         ops[f"{cls}:safety_as_cons"] = {"cls": cls, "k": 3, "use": ["solver_options", "subset_constraints"],
                                         "extra": {"optimization_options": {"optimize_with_safety_as_subset_constraints": True}}}
@@ -70,6 +77,10 @@ def _ops():
         ops[f"{cls}:node"] = {"cls": cls, "use": ["solver_options"], "extra": {"cover_type": "node"}}
     ops["MinErrorFlow:shared"] = {"cls": "MinErrorFlow", "use": ["solver_options", "elements_to_ignore", "error_scaling", "additional_starts", "additional_ends"]}
     ops["MinErrorFlow:defaults"] = {"cls": "MinErrorFlow", "use": []}
+    # error scaling 0 (= ignore) while elements_to_ignore is left at its (mutable) default
+    ops["MinErrorFlow:scale0"] = {"cls": "MinErrorFlow", "use": ["solver_options"], "extra": {"error_scaling": {("s", "b"): 0}}}
+    for cls in ["kMinPathError", "kLeastAbsErrors", "kMinPathErrorCycles", "kLeastAbsErrorsCycles"]:
+        ops[f"{cls}:scale0"] = {"cls": cls, "k": 3, "use": ["solver_options"], "extra": {"error_scaling": {("s", "b"): 0}}}
     return ops
 
 
@@ -146,6 +157,7 @@ def _shared_objects(gname):
         if nv[v] == 0:
             nv[v] = sum(w for u, x, w in gd["arcs"] if u == v)
         G.nodes[v]["nflow"] = nv[v]
+        G.nodes[v]["length"] = 2
     return {
         "G": G,
         "optimization_options": {"optimize_with_greedy": False},
